@@ -10,7 +10,7 @@ RULE = ("exhaustive: m = 2; every non-empty set of distinct strict orders over 3
         "every set of <= 3 (quick) / <= 4 (thorough) distinct strict orders over 4 alternatives, stored in increasing "
         "and in decreasing lexicographic order (thorough: also all sets of 5, one storage order); all sets of <= 2 orders over three non-contiguous id sets of size 4; "
         "m = 5: the identity order with every other order, and with every pair of other orders (quick: 1200 sampled "
-        "pairs). random: m in 4..6 with arbitrary positive ids and multiplicities, uniformly random votes / votes grown "
+        "pairs). random: m in 4..7 (thorough: also 120 cases with m = 8) with arbitrary positive ids and multiplicities, uniformly random votes / votes grown "
         "from a random tree (path, star, caterpillar, random) +- noise votes (uniform or an adjacent swap of a planted "
         "vote); verdict compared with the reference c13.decide, which enumerates all (m-1)^(m-1) parent assignments. "
         "planted m in 7..30, n <= 30: votes grown from a random tree which itself passes c13.check, so the verdict "
@@ -23,7 +23,7 @@ EXHAUSTIVE = {"quick": "m = 2; all sets of distinct strict orders for m = 3 (63 
                           "+ each other order, identity + each pair of other orders"}
 TRUSTED = ["not modelled: Trick's elimination loop in single_peaked_tree.py (is_single_peaked_on_tree, get_B, "
            "get_bottom_alts, restrict_preferences) and OrdinalInstance.flatten_strict; the implementation is compared "
-           "with the proved reference decider for m <= 6 and its returned tree goes through the proved checker at "
+           "with the proved reference decider for m <= 7 (8 in thorough) and its returned tree goes through the proved checker at "
            "every size; a wrong False on a large profile that is single-peaked on a tree would only be seen on the "
            "planted positives (m <= 30)"]
 ASSUMPTIONS = ["profiles of strict complete orders (data_type soc) over >= 2 alternatives with distinct positive "
@@ -161,7 +161,9 @@ def generate(tier, seed):
     # random small, verdict compared with the reference
     nrand = 1500 if tier == "quick" else 10000
     for i in range(nrand):
-        m = rng.choice([4, 5, 5, 6, 6])
+        m = rng.choice([4, 5, 5, 6, 6, 7])
+        if tier != "quick" and i < 120:
+            m = 8                      # ~1 s and 200 MB per reference call: a few, thorough only
         kind = rng.randrange(5)
         if kind == 0:      # uniformly random orders (mostly negative beyond 3 votes)
             alts = _ids(rng, m)
